@@ -301,6 +301,8 @@ class Gen:
                     inp = self.reftok(rng.choice(defs), cur)
                 else:
                     inp = rng.choice(["INDEX", "nosuch", "x.INDEX", "f1.r", ".f2", "f3.z"] if self.ge(10) else ["INDEX", "nosuch", "f1"])
+                    if self.api and depth and "INDEX" in inp:
+                        inp = "nosuch"       # INDEX cannot follow a later change of the affixes
                 if rng.random() < 0.3:
                     lines.append(("FL", nm, inp, rng.choice(["t.lut", "tab/t1.lut", "d1/t2.lut", "d1/d2/t3.lut"])))
                 else:
@@ -317,7 +319,7 @@ class Gen:
                 else:
                     pt = rng.choice(["nosuch", "INDEX"])
                 nm = pt + "/" + self.fresh()
-                lines.append(("FB", nm, "INDEX"))
+                lines.append(("FB", nm, "INDEX" if not (self.api and depth) else "nosuch"))
                 defs.append((nm, cur, "B"))
             elif r < 0.56:                                      # alias
                 if clean and not (self.ge(9) and slash):
@@ -349,6 +351,8 @@ class Gen:
                         pending.append(("into", self.fresh(), other, cur))
                 else:
                     tg = rng.choice(["INDEX", "x.INDEX", "f1.r", "."] if not clean else ["INDEX", "f1.r"])
+                    if self.api and depth:
+                        tg = "f1.r"
                 lines.append(("A", nm, tg))
                 defs.append((nm, cur, "A"))
             elif r < 0.60:                                      # hidden
@@ -733,7 +737,18 @@ def main():
                          "echo '<tree>' | ocaml/C09/driver"}
         if i < 3 or (i % 500 == 7):
             chk.sample({"generator": tags[i], "tree": ser_tree(t)[:300], "impl": ci[:300]})
-        if tags[i] == "api-post" and cs != "UNSPEC" and ci != cs:
+        if tags[i] == "api-post" and ib["status"] == "OK" and sb["status"] == "OK":
+            # the record of the fragment that gd_alter_affixes / gd_fragment_namespace changed (Api.v)
+            post = [l for l in filesets[i]["<api script>"].split("\n") if l.startswith(("AFFIX\t", "NS\t"))]
+            fi = post[0].split("\t")[1]
+            fa = [f for f in ib["F"] if f.split()[1] == fi]
+            fs = [f for f in sb["F"] if f.split()[1] == fi]
+            if fa != fs:
+                chk.violation("api/fragment-attributes", "after %s fragment %s is %s; the parser gives %s for the equivalent /INCLUDE" % (
+                    post[0].replace("\t", " "), fi, fa, fs), dict(replay, kind="impl-vs-spec"), found=True)
+                continue
+        if (tags[i] == "api-post" and cs != "UNSPEC" and ci != cs and ci != cm
+                and not (ib["status"] == "ERR" and not ib.get("N", "").startswith(("N AFFIX", "N NS")))):
             # gd_alter_affixes / gd_fragment_namespace rename the entry names only (recorded finding)
             chk.violation(K_API_RENAME, "after the API script of tree %s the dirfile is %s; parsing the equivalent format files (interp_spec) gives %s" % (
                 ser_tree(t)[:200], ci[:400], cs[:400]), dict(replay, kind="impl-vs-spec", attr=attr), found=True)
